@@ -21,7 +21,7 @@ META = dict(
           "repository's own code is covered.",
     trusted="the csv C module's quoting, repr/float text round-trip of floats, textgrid / pympi / pyannote.load_rttm parsers: C or third-party code the engine "
             "cannot encode; they are replaced by channels with the round-trip contract and are OUTSIDE the claim (delimiters, quotes, unicode are therefore not exercised)",
-    bounds=dict(quick="<= 3 CSV rows incl. one zero-length row; TextGrid / ELAN: 2 tiers x <= 2 intervals (marks: plain, empty, blank-only, padded with blanks), every tier selection, both label modes; RTTM: 2 uris x <= 2 tracks",
+    bounds=dict(quick="<= 3 CSV rows incl. one zero-length row; TextGrid / ELAN: 2 tiers x <= 2 intervals (marks: plain, empty, blank-only, padded with blanks; CSV labels incl. a decomposed next to a precomposed spelling), every tier selection, both label modes; RTTM: 2 uris x <= 2 tracks",
                 thorough="<= 4 rows, 3 tiers"),
     outside="the file formats themselves (quoting, delimiters inside fields, unicode, float text formatting) are not seen by the solver: the channel contract only "
             "holds if reader and writer get the same csv dialect parameters, which IS an obligation; in addition a concrete cross-check on the real build, run with every "
@@ -162,7 +162,8 @@ def harness(cfg, ns):
 
     def h_csv(ctx):
         sizes = tuple(cfg["sizes"])
-        labels = ["lab a", "b", "lab a", "c"][:sum(sizes)]
+        # a precomposed and a decomposed spelling of one letter are two labels (a reader that normalises text merges them)
+        labels = ["lab a", "e\u0301", "lab a", "\u00e9"][:sum(sizes)]
         c, info = common.build_continuum(ns, ctx, sizes, coords="sym", labels=labels, ordered=False)
         ctx.notes["inputs"] = [v[k] for v in info.values() for k in ("start", "end")]
 
@@ -359,7 +360,9 @@ def harness(cfg, ns):
 
 # ---------------------------------------------------------------------------------------------
 NASTY = [" lead", "trail ", "in ner", 'quo"te', "semi;colon", "com,ma", "tab\there", "unicodé-ß", "'single'", "a", " ",
-         "two\nlines", "para one\n\npara two", "top\n \t\nbottom", "cr\rlf", "crlf\r\nx"]
+         "two\nlines", "para one\n\npara two", "top\n \t\nbottom", "cr\rlf", "crlf\r\nx",
+         # Unicode equivalence classes: precomposed / decomposed, singleton (ANGSTROM SIGN), compatibility forms (ligature, full width), case
+         "caf\u00e9", "cafe\u0301", "\u212b", "\u00c5", "A\u030a", "\ufb01n", "fin", "\uff21\uff22", "AB", "ab", "Ab", "\u1112\u1161\u11ab", "\ud55c"]
 
 
 def real_checks(tier):
